@@ -264,7 +264,10 @@ class Name(Kind):
 CHARSTRS = [b"a", b"", b"a b", b'"', b"\\", b"\x00\x7f\x80\xff", b";(", b"x" * 255, b"\xc3\xa9", b"1\\0002",
             # valid UTF-8 whose characters are not printable (C1 control, zero-width space, BOM) and a
             # 4-octet character: the txt_is_utf8 style must still round-trip them
-            b"\xc2\x85", b"\xe2\x80\x8b", b"\xef\xbb\xbf", b"\xf0\x9f\x98\x80"]
+            b"\xc2\x85", b"\xe2\x80\x8b", b"\xef\xbb\xbf", b"\xf0\x9f\x98\x80",
+            # maximal strings whose presentation form is far longer than 255 characters (every octet
+            # needs a \DDD or \x escape): the 255 limit is on octets, not on the escaped text
+            b"\x00" * 255, b'"' * 255, b"\x07" * 64]
 
 
 class CharStr(Kind):
